@@ -187,7 +187,7 @@ STREAMS = [('vlib.props.c02', 'make', {}, 120), ('vlib.props.c03', 'make', {}, 1
 def run(prop, tier, seed, t0):
     from .. import plan
     q = tier == 'quick'
-    cfgs = ['simd', 'serial32', 'serial64'] if q else plan.ALL_CFGS + ['simd-notables', 'serial32-notables']
+    cfgs = ['simd', 'serial32', 'serial64', 'fiat64', 'fiat32'] if q else plan.ALL_CFGS + ['simd-notables', 'serial32-notables']
     bins, notes, failed = plan.bins_for(cfgs, ('rel', 'chk'))
     bcfgs = ['simd', 'avx512']
     bbins, notes2, failed2 = plan.bins_for(bcfgs, ('bnd',))
